@@ -170,6 +170,7 @@ func CreateEntryWithIO(ctx context.Context, ipfsInstance coreiface.CoreAPI, iden
 	}
 
 	data.SetV(2)
+	data.SetKey(identity.PublicKey)
 
 	if io, ok := io.(iface.IOPreSign); ok {
 		var err error
@@ -196,7 +197,6 @@ func CreateEntryWithIO(ctx context.Context, ipfsInstance coreiface.CoreAPI, iden
 		return nil, errmsg.ErrSigSign.Wrap(err)
 	}
 
-	data.SetKey(identity.PublicKey)
 	data.SetSig(signature)
 
 	data.SetIdentity(identity.Filtered())
